@@ -15,7 +15,15 @@ Document universe D (verif.props.c06_docs; plain-JSON specs, bytes depend on the
     EMPTY <cp:coreProperties/> -, ODF without meta.xml / with an empty <office:meta/>, e-mail without Date and Message-ID,
     attachments without file name, embedded message/rfc822), and the 8 forms of the PDF standard security handler (RC4-40,
     RC4-128, crypt filters /V2 /AESV2 /AESV3, each under the conventional filter name /StdCF and under another name) with empty
-    and with non-empty user password - and (thorough) every pair of features with 5 instances each / every variant.  A
+    and with non-empty user password - and (thorough) every pair of features with 5 instances each / every variant.
+    PLACEMENT family (docx odt rtf html mhtml epub; flag "incell"): the hyperlink paragraphs / pictures / pictures with
+    alternative text / lists of the document sit inside the cells of ONE table instead of directly in the body (nothing is
+    anchored at body level - content a reader finds only by descending into containers, and collects by other code paths than
+    body-level content): each of these features alone with 5 (thorough also 6, 8) instances + all of them together, 2 each
+    (thorough also 3 each; thorough pairs every other feature with the flag).  ROLE family (odp; flag "clsnames": paragraph
+    styles named TitleText / BodyText as presentation software names them - with the anonymous automatic names P1.. of the
+    other odp documents every paragraph is "other" text and the title / body fields of a slide stay empty): a slide with every
+    non-empty subset of {title, body, other} paragraphs, 2 each (thorough also 3 and 5 each) - 7 (21) documents.  A
     set-ordered collection of 5 distinct members has 120 orders, so an order dependence survives all seeds only by coincidence
     (stated, not exhaustive).
 
@@ -33,7 +41,8 @@ judges - PYTHONPATH is handed on, so `PYTHONPATH=<tree> ./check C06` judges <tre
   fresh-process  the result does not depend on what the process has extracted before.  Four process histories per document
                  must give the same to_json(): (a) the FIRST extraction of a new process (one process per document; quick: every
                  generated document whose counts are all <= 2, i.e. the empty and the rich document, every flag and every
-                 variant document - 99 today; thorough: every document of D incl. the fixtures), (b) the seed-0 sweep process
+                 variant document, the all-nested placement documents and the role documents - 112 today; thorough: every
+                 document of D incl. the fixtures), (b) the seed-0 sweep process
                  (history: a part of D), (c) the WARM process - one new interpreter that extracts all of D once in canonical
                  order - at its first pass (history: the canonical prefix of D) and (d) at its second pass (history: all of D,
                  every format, every encryption form, every failing input).  reexec compares a new process with a warm process
@@ -777,6 +786,8 @@ def _run(ctx, tier, seeds, specs, by_key, herr, fails, stage):
     cov = {"evaluations": evaluations, "distinct_nontrivial": len(outcomes), "exhaustive": True,
            "states": states, "transitions": trans, "traces_validated_against_impl": trans,
            "documents": len(specs), "fixtures": sum(1 for s in specs if "fix" in s), "generated": sum(1 for s in specs if "gen" in s),
+           "placement_documents_content_inside_table_cells": sum(1 for s in specs if (s.get("n") or {}).get("incell")),
+           "role_documents_odp_title_body_other_subsets": sum(1 for s in specs if (s.get("n") or {}).get("clsnames")),
            "hash_seeds": seeds, "hash_probe_values_distinct": len({tuple(v) for v in probes.values()}),
            "configuration_processes": len(jobs) + len(fresh_jobs) + 1, "fresh_process_documents": nfresh,
            "warm_process_extractions": nwarm, "library_judged_in_every_process": library,
@@ -793,7 +804,7 @@ def _run(ctx, tier, seeds, specs, by_key, herr, fails, stage):
                        "fresh-result value from every reachable state, so the history oracle holds for histories of ANY length (modulo "
                        "state outside the result objects)"),
            "samples": sorted(samples, key=lambda s: s["doc"]),
-           "rule": "D = all fixtures + per generated format {empty, rich x2[, x3], each feature x5[,6,8], [pairs x5]}; configurations = one "
+           "rule": "D = all fixtures + per generated format {empty, rich x2[, x3], each feature x5[,6,8], [pairs x5]} + placement family (docx odt rtf html mhtml epub: links / images / altimgs / lists INSIDE table cells, each x5[,6,8] + all x2[,3]) + role family (odp with role-named styles: every non-empty subset of {title, body, other} paragraphs x2[,3,5]); configurations = one "
                    "new interpreter per PYTHONHASHSEED over all of D (+ second extraction in the same process, + third extraction from the re-used buffer, + caller buffer compared) "
                    "; fresh-process: one new interpreter per document with counts <= 2 (thorough: per document) + one warm interpreter extracting all of D twice, once each; histories = observers: base observers + one per non-default value combination of the optional (bool) parameters found by reflection on the interface methods, serialize_extraction and the methods of the result's parts; all observer sequences of length <= 2 executed from a "
                    "fresh result (generated: new extraction, fixtures: verified deep copy), length 3 (thorough): all triples for fixtures and rich documents, else from states first reached at length 2; states = distinct canonical snapshots reached "
